@@ -43,6 +43,9 @@ var c04IDs = [][]byte{[]byte("id-1-aaaaaaaaaaaaaaaaaaaaaaaaaaaaa"), []byte("id-2
 type c04item struct {
 	ID  []byte `json:"id"`
 	Src string `json:"src"` // own | otherkeyper | otherid | othereon | truncated | empty | garbage | stored
+	// For is set when the bytes are the valid share/key of ANOTHER identity of the
+	// same message (values exchanged between items, identities left in place).
+	For []byte `json:"for,omitempty"`
 }
 
 type c04spec struct {
@@ -81,10 +84,14 @@ func (w *c04world) bytesFor(s c04spec, it c04item, stored []byte) []byte {
 		idx = 1
 	}
 	var valid []byte
+	vid := it.ID
+	if it.For != nil {
+		vid = it.For
+	}
 	if s.Type == "shares" {
-		valid = ks.Share(idx, it.ID).Marshal()
+		valid = ks.Share(idx, vid).Marshal()
 	} else {
-		valid = ks.Key(it.ID).Marshal()
+		valid = ks.Key(vid).Marshal()
 	}
 	switch it.Src {
 	case "own":
@@ -351,6 +358,11 @@ func c04muts(typ string) []c04mut {
 			}
 		})
 	}
+	add("bytes-first", "values of the first two items exchanged", func(s *c04spec) {
+		if len(s.Items) >= 2 {
+			s.Items[0].For, s.Items[1].For = s.Items[1].ID, s.Items[0].ID
+		}
+	})
 	add("order", "swap first two", func(s *c04spec) {
 		if len(s.Items) >= 2 {
 			s.Items[0], s.Items[1] = s.Items[1], s.Items[0]
@@ -407,7 +419,7 @@ func cloneSpec(s c04spec) c04spec {
 	c := s
 	c.Items = make([]c04item, len(s.Items))
 	for i, it := range s.Items {
-		c.Items[i] = c04item{ID: append([]byte(nil), it.ID...), Src: it.Src}
+		c.Items[i] = c04item{ID: append([]byte(nil), it.ID...), Src: it.Src, For: it.For}
 	}
 	c.Muts = append([]string(nil), s.Muts...)
 	return c
